@@ -828,7 +828,15 @@ int mpq_EGlpNumReadStrXc (mpq_t var,
 		/* ending */
 		mpq_canonicalize (den[0]);
 		mpq_canonicalize (den[1]);
-		mpq_div (var, den[0], den[1]);
+		if (mpz_sgn (mpq_numref (den[1])) == 0)
+		{
+			/* "p/0" (and "p/" with no digits) does not denote a number */
+			n_char = 0;
+		}
+		else
+		{
+			mpq_div (var, den[0], den[1]);
+		}
 	}
 	mpq_clear (den[0]);
 	mpq_clear (den[1]);
